@@ -50,6 +50,7 @@ func (c05) Plan(tier string, seed int64) []mon.Workload {
 		{Name: "number-soup", N: 4000 * m},
 		{Name: "concurrent-spellings", N: 12 * m, Procs: 8, MaxWorkers: 2},
 		{Name: "many-diagnostics", N: int64(len(c05DiagStmts) * 40), Exhaustive: true},
+		{Name: "case-mapping", N: int64(len(c05FoldChars) * len(c05FoldPlaces) * len(c05FoldTails)), Exhaustive: true},
 	}
 	for i := range ws {
 		// a parse takes microseconds to milliseconds; one that is still open
@@ -73,9 +74,24 @@ var c05Tokens = []string{",", "*", "*=", "/", "/=", "%", "%=", "+", "+=", "-", "
 
 var c05Alphabet = []string{"a", "\"", "'", "`", "\\", "n", "x", "u", "U", "0", "4", "8", "\n", "\x00", "é", "世", "\xff", "\xc3", " ", "#", "\"\"\"", "'''", "\\x4", "\\u00e", "\\400", "\\ud800", "\\U00110000"}
 
+// case-mapping (exhaustive): characters whose upper / lower-case mapping has
+// another UTF-8 length (Kelvin, Ohm and Angstrom signs, capital sharp s,
+// dotted capital I, ...) in a comment, a string, an identifier or a
+// back-quoted identifier, followed by keywords in mixed case and identifiers
+// that run up to the very end of the text (no trailing newline).
+var c05FoldChars = []string{"\u212a", "\u2126", "\u212b", "\u1e9e", "\u2c62", "\u0130", "\u023a", "\u023e", "\u212a\u212a\u212a", "\u0130\u0130\u212a", "\u1e9ex\u2126"}
+var c05FoldPlaces = []string{"# C\n", "x = \"C\"\n", "C = 1\n", "x = `C`\n", "x = 'C' # C\nC1 = x\n", "aCb = 2\n"}
+var c05FoldTails = []string{"y", "y = x", "if x {\n}\ntrue", "for a in x {\n}\nNIL", "zz", "IF TRUE {\n} ELSE {\n}", "y = nUlL", "y = x\n", "if x {}\nelif", "C", "y = C", "FOR a IN x {\n  BREAK\n}"}
+
 func (k c05) inputs(c *mon.Ctx, workload string, i int64) []string {
 	r := c.R
 	switch workload {
+	case "case-mapping":
+		tail := c05FoldTails[int(i)%len(c05FoldTails)]
+		i /= int64(len(c05FoldTails))
+		place := c05FoldPlaces[int(i)%len(c05FoldPlaces)]
+		ch := c05FoldChars[int(i)/len(c05FoldPlaces)]
+		return []string{strings.ReplaceAll(place+tail, "C", ch)}
 	case "mutate":
 		s := gen.NewSyntax(r)
 		stmts := gt.ParenthesizeStmts(s.Program(3, 2, 2))
